@@ -108,6 +108,22 @@ def contracts():
       ensures=['len(calls) == 1 and calls[0][1][1] == ((1, value),)',
                'result == value'],
       serves=('C08',))
+    # ---- scalar smart types hand the payload THE value they were given:
+    # a string argument reaches the function code point for code point (no
+    # case / normal-form / whitespace canonicalisation on the way in) ----
+    YT = "__import__('yaql.language.yaqltypes', fromlist=['x'])."
+    ENG = "__import__('yaql').YaqlFactory().create()"
+    for cls, vt in (('String', TStr), ('Integer', TInt), ('Number', TInt)):
+        k = c(Y + ('String' if cls == 'String' else 'GenericType') +
+              '.convert', name='yaqltypes.%s.convert/identity' % cls,
+              params=dict(self=typeobj(cls), value=vt, receiver=None,
+                          context=None, function_spec=None, engine=eng),
+              ensures=['result == value'],
+              serves=('C15', 'C19'))
+        k.native = {
+            'self': dict(kind='expr', code=YT + cls + '()'),
+            'engine': dict(kind='expr', code=ENG)}
+        k.native_scope = 2
     # ---- Iterable.convert: the payload only ever sees a LIMITED iterable --
     c(Y + 'Iterable.convert',
       params=dict(self=typeobj('Iterable'), value=TVal, receiver=TVal,
